@@ -335,6 +335,75 @@ def _objective_forms_ok(eng, cfg, cond, expr, h_none_here, depth=4):
     return True
 
 
+def rule_success_needs_finite_objective(eng, rep, rule="C10-6.success-is-never-attached-to-a-non-finite-objective"):
+    """Choke-point rule: every result that carries a solution is built by one OptimResults(...) call in solve.  On every path to it the combination
+    (flag == EXIT_SUCCESS, objective not finite) must have been excluded: typestate over (flag variable, objective variable) -- 'excluded' is established by the
+    not-equal outcome of `flag == EXIT_SUCCESS`, the true outcome of `np.isfinite(objective)`, or the assignment of an ExitInformation with another flag, and is
+    lost by any other assignment to either variable."""
+    from ..dataflow import Flow
+    from .c02 import final_ctor
+    A = anchors(eng)
+    ci, b = final_ctor(eng, A)
+    solve = A.solve
+    cfg = eng.cfg(solve)
+    cnode = cfg.cfg_node(ci.node)
+    fexpr, oexpr = b.params.get("exit_flag"), b.params.get("objmin")
+    if not isinstance(fexpr, ast.Name) or not isinstance(oexpr, ast.Name):
+        rep.unknown(rule, eng.where(solve, ci.node), "flag / objective arguments of the final OptimResults(...) are not plain names")
+        return
+    F, O = fexpr.id, oexpr.id
+    # the flag is read off an ExitInformation object: F = X.flag
+    X = None
+    for dn in cfg.defs_reaching(fexpr, F):
+        st = cfg.ast_of(dn)
+        if isinstance(st, ast.Assign) and isinstance(st.value, ast.Attribute) and st.value.attr == "flag" and isinstance(st.value.value, ast.Name):
+            X = st.value.value.id
+    flagvars = {F} | ({X} if X else set())
+
+    def is_flag(e):
+        return (isinstance(e, ast.Name) and e.id == F) or (isinstance(e, ast.Attribute) and e.attr == "flag" and isinstance(e.value, ast.Name) and e.value.id == X)
+
+    def node_fn(n, s):
+        st = cfg.ast_of(n)
+        if cfg.kind(n) != "stmt" or not isinstance(st, (ast.Assign, ast.AugAssign)):
+            return [s]
+        tg = []
+        for t in (st.targets if isinstance(st, ast.Assign) else [st.target]):
+            tg += assigned_names(t)
+        if O in tg:
+            return ["U"]
+        if set(tg) & flagvars:
+            v = st.value
+            if isinstance(st, ast.Assign) and is_flag(v):
+                return [s]                      # F = X.flag : a copy
+            if isinstance(v, ast.Call) and ekey(v.func).split(".")[-1] == "ExitInformation" and v.args and isinstance(v.args[0], ast.Name) \
+                    and v.args[0].id.startswith("EXIT_") and v.args[0].id != "EXIT_SUCCESS":
+                return ["OK"]
+            return ["U"]
+        return [s]
+
+    def edge_fn(a, b_, e, s):
+        if cfg.kind(a) == "cond" and e.get("label") in (True, False):
+            at = atom_of(cfg.ast_of(a), e["label"])
+            if at.op == "ne" and ((is_flag(at.lhs) and ekey(at.rhs) == "EXIT_SUCCESS") or (is_flag(at.rhs) and ekey(at.lhs) == "EXIT_SUCCESS")):
+                return "OK"
+            if at.op == "truth" and isinstance(at.lhs, ast.Call) and ekey(at.lhs.func).split(".")[-1] == "isfinite" and len(at.lhs.args) == 1 and ekey(at.lhs.args[0]) == O:
+                return "OK"
+        return s
+
+    fl = Flow(cfg, "U", node_fn, edge_fn)
+    states = set(fl.states(cnode))
+    site = eng.where(solve, ci.node)
+    if states == {"OK"}:
+        rep.ok(rule, site, "on every path to the result constructor either `%s` is not EXIT_SUCCESS or np.isfinite(%s) has held" % (F, O))
+    else:
+        p = fl.path_to(cnode, "U")
+        rep.bad(rule, site, "solver.solve|success-with-unchecked-objective",
+                "a result can be built with flag EXIT_SUCCESS although `%s` was never tested for finiteness: 'Success: ...' is reported with obj = inf / nan "
+                "(inf residual at x0 passes `obj <= max(abs_tol, rel_tol*inf)`; an all-NaN objective ends in 'Reached maximum number of unsuccessful restarts')" % O,
+                path=cfg.describe_path(p)[-12:] if p else None)
+
+
 def _prev_call(cfg, node):
     from .c04 import _context_key
     return _context_key(None, cfg, node)
@@ -646,12 +715,13 @@ def run(eng, rep):
                 "comparisons identified; counting data-flow proves exactly one nruns increment per run end on every break/continue/return of "
                 "solve_main (T3) and the threading of the run counter through solve (T4).")
     rep.not_decided += ["whether soln.obj is the small value when averaging noise re-orders points",
-                        "success is never attached to a non-finite objective: reduces to C08-1 (selection is NaN-total)"]
+                        ]
     rule_messages(eng, rep)
     # 'rho has reached rhoend' is built under not (rho > rhoend) (C10-2); together with rho >= rhoend (interval reasoning over reduce_rho and the parameter
     # table, shared with C18-8) the lower bound *equals* rhoend at that point
     from .c18 import rule_rho_between_rhoend_and_rhobeg
     rule_rho_between_rhoend_and_rhobeg(eng, rep, rule="C10-2b.rho-is-never-below-rhoend")
+    rule_success_needs_finite_objective(eng, rep)
     rule_nruns(eng, rep)
     from .records import rule_mean_over_samples_run
     rule_mean_over_samples_run(eng, rep, "C10-1c.tested-value-is-the-mean-over-the-samples-actually-run")
